@@ -282,8 +282,8 @@ theorem stampText_length (s0 s1 s2 s3 s4 s5 s6 : List Char) (y mo d h mi s : Nat
     pad_length_of_lt 1 s hs]
   omega
 
-/-- all formats are instances of the skeleton -/
-theorem renderStamp_eq (fmt : Nat) :
+/-- the year-first formats (every format but the day-first fmt 3) are instances of the skeleton -/
+theorem renderStamp_eq (fmt : Nat) (hf : fmt ≠ 3) :
     ∃ s0 s1 s2 s3 s4 s5 s6, ∀ k, renderStamp fmt k =
       stampText s0 s1 s2 s3 s4 s5 s6 (k / 10000000000) (k / 100000000 % 100) (k / 1000000 % 100)
         (k / 10000 % 100) (k / 100 % 100) (k % 100) := by
@@ -296,8 +296,11 @@ theorem renderStamp_eq (fmt : Nat) :
       simp [renderStamp, stampText]⟩
   · refine ⟨['r'], ['-'], ['-'], ['_'], ['-'], ['-'], [], fun k => ?_⟩
     unfold renderStamp
-    simp only []
-    simp [stampText]
+    split
+    · exact absurd rfl h1
+    · exact absurd rfl h2
+    · exact absurd rfl hf
+    · simp [stampText]
 
 theorem stamp_decomp (k : Nat) :
     k = (k / 10000000000) * 10000000000 + (k / 100000000 % 100) * 100000000 +
@@ -321,11 +324,12 @@ theorem year_lt (k : Nat) (hk : k < 10 ^ 14) : k / 10000000000 < 10 ^ 4 := by
 
 theorem mod100_lt (x : Nat) : x % 100 < 10 ^ 2 := Nat.mod_lt _ (by decide)
 
-/-- C16.4 timestamps, infix level (every format; 4-digit years): the packed stamp order is the
-    text order. The field ranges need no hypothesis (`% 100`), and `10^13 ≤ k` is not needed. -/
-theorem stamps_order (fmt k k' : Nat) (h : k < k') (hk' : k' < 10 ^ 14) :
+/-- C16.4 timestamps, infix level (every year-first format; 4-digit years): the packed stamp
+    order is the text order. The field ranges need no hypothesis (`% 100`), and `10^13 ≤ k` is
+    not needed. -/
+theorem stamps_order (fmt k k' : Nat) (hf : fmt ≠ 3) (h : k < k') (hk' : k' < 10 ^ 14) :
     ltText (renderStamp fmt k) (renderStamp fmt k') = true := by
-  obtain ⟨s0, s1, s2, s3, s4, s5, s6, he⟩ := renderStamp_eq fmt
+  obtain ⟨s0, s1, s2, s3, s4, s5, s6, he⟩ := renderStamp_eq fmt hf
   rw [he k, he k']
   have hm' : ∀ x : Nat, x % 100 < 100 := fun x => Nat.mod_lt _ (by decide)
   refine ltText_stampText _ _ _ _ _ _ _ _ _ _ _ _ _ _ _ _ _ _ _ (year_lt k (by omega)) (year_lt k' hk')
@@ -336,9 +340,9 @@ theorem stamps_order (fmt k k' : Nat) (h : k < k') (hk' : k' < 10 ^ 14) :
   rw [← stamp_decomp k, ← stamp_decomp k']
   exact h
 
-theorem renderStamp_length_eq (fmt k k' : Nat) (hk : k < 10 ^ 14) (hk' : k' < 10 ^ 14) :
+theorem renderStamp_length_eq (fmt k k' : Nat) (hf : fmt ≠ 3) (hk : k < 10 ^ 14) (hk' : k' < 10 ^ 14) :
     (renderStamp fmt k).length = (renderStamp fmt k').length := by
-  obtain ⟨s0, s1, s2, s3, s4, s5, s6, he⟩ := renderStamp_eq fmt
+  obtain ⟨s0, s1, s2, s3, s4, s5, s6, he⟩ := renderStamp_eq fmt hf
   rw [he k, he k',
     stampText_length _ _ _ _ _ _ _ _ _ _ _ _ _ (year_lt k hk) (mod100_lt _) (mod100_lt _)
       (mod100_lt _) (mod100_lt _) (mod100_lt _),
@@ -347,7 +351,22 @@ theorem renderStamp_length_eq (fmt k k' : Nat) (hk : k < 10 ^ 14) (hk' : k' < 10
 
 example : renderStamp 0 20240131100000 = "r2024-01-31_10-00-00".toList ∧
     renderStamp 1 20240131100000 = "r20240131-100000".toList ∧
-    renderStamp 2 20240131100000 = "r2024-01-31_10-00-00_x".toList := by decide
+    renderStamp 2 20240131100000 = "r2024-01-31_10-00-00_x".toList ∧
+    renderStamp 3 20240131100000 = "r31-01-2024_10-00-00".toList := by decide
+
+/-- full statement of the order lemma for EVERY format -/
+def stamps_order_full_statement : Prop :=
+  ∀ fmt k k', k < k' → k' < 10 ^ 14 → ltText (renderStamp fmt k) (renderStamp fmt k') = true
+
+/-- FALSE for the day-first format (a legal `TimestampsCustomFormat`): the 31st of January sorts
+    after the 1st of February. Everything that relies on the text order of the names (listing
+    order, which files the cleanup keeps) is therefore stated for the year-first formats only;
+    the C07 consequence for the real code is the known finding `C07-day-first-format`. -/
+theorem stamps_order_dayfirst_violation_witness : ¬ stamps_order_full_statement := by
+  intro h
+  have := h 3 20240131100000 20240201100000 (by decide) (by decide)
+  revert this
+  decide
 
 theorem renderInfix_ts (sp : Spec) (k : Nat) (r : Option Nat) :
     ∃ t, renderInfix sp (.ts k r) = renderStamp sp.fmt k ++ t := by
@@ -361,7 +380,7 @@ theorem renderInfix_ts_ne_nil (sp : Spec) (k : Nat) (r : Option Nat) :
 
 /-- full names: different stamps (any restart numbers, any compression flags) -/
 theorem stamps_order_names (sp : Spec) (k k' : Nat) (r r' : Option Nat) (g g' : Bool)
-    (h : k < k') (hk' : k' < 10 ^ 14) :
+    (hf : sp.fmt ≠ 3) (h : k < k') (hk' : k' < 10 ^ 14) :
     ltText (render sp ⟨some (.ts k r), g⟩) (render sp ⟨some (.ts k' r'), g'⟩) = true := by
   rw [render_some sp _ g (by simp) (renderInfix_ts_ne_nil sp k r),
     render_some sp _ g' (by simp) (renderInfix_ts_ne_nil sp k' r')]
@@ -370,8 +389,8 @@ theorem stamps_order_names (sp : Spec) (k k' : Nat) (r r' : Option Nat) (g g' : 
   rw [ht, ht']
   simp only [List.append_assoc]
   rw [← List.append_assoc, ← List.append_assoc (sepPrefix sp) (renderStamp sp.fmt k')]
-  exact ltText_lift _ _ _ _ _ (renderStamp_length_eq _ _ _ (by omega) hk')
-    (stamps_order _ _ _ h hk')
+  exact ltText_lift _ _ _ _ _ (renderStamp_length_eq _ _ _ hf (by omega) hk')
+    (stamps_order _ _ _ hf h hk')
 
 /-! #### restart siblings -/
 
@@ -457,12 +476,12 @@ theorem keyLt_iff (a b c d : Nat) : keyLt (a, b) (c, d) = true ↔ a < c ∨ (a 
   simp only [keyLt, Bool.or_eq_true, Bool.and_eq_true, decide_eq_true_eq]
 
 theorem ts_order_key (sp : Spec) (k k' : Nat) (r r' : Option Nat) (g g' : Bool)
-    (hk' : k' < 10 ^ 14) (hr' : ∀ x, r' = some x → x < 10000)
+    (hf : sp.fmt ≠ 3) (hk' : k' < 10 ^ 14) (hr' : ∀ x, r' = some x → x < 10000)
     (hs : RestartSafe sp)
     (h : keyLt (Infix.ts k r).key (Infix.ts k' r').key = true) :
     ltText (render sp ⟨some (.ts k r), g⟩) (render sp ⟨some (.ts k' r'), g'⟩) = true := by
   by_cases hlt : k < k'
-  · exact stamps_order_names sp k k' r r' g g' hlt hk'
+  · exact stamps_order_names sp k k' r r' g g' hf hlt hk'
   · cases r with
     | none =>
       cases r' with
@@ -482,7 +501,7 @@ theorem ts_order_key (sp : Spec) (k k' : Nat) (r r' : Option Nat) (g g' : Bool)
 /-- … and as an equation (same compression flag, both sides bounded): the structural order of
     the timestamp infixes IS the order of the rendered names -/
 theorem ts_order_key_eq (sp : Spec) (k k' : Nat) (r r' : Option Nat) (g : Bool)
-    (hk : k < 10 ^ 14) (hk' : k' < 10 ^ 14) (hr : ∀ x, r = some x → x < 10000)
+    (hf : sp.fmt ≠ 3) (hk : k < 10 ^ 14) (hk' : k' < 10 ^ 14) (hr : ∀ x, r = some x → x < 10000)
     (hr' : ∀ x, r' = some x → x < 10000) (hs : RestartSafe sp) :
     ltText (render sp ⟨some (.ts k r), g⟩) (render sp ⟨some (.ts k' r'), g⟩) =
       keyLt (Infix.ts k r).key (Infix.ts k' r').key := by
@@ -491,10 +510,10 @@ theorem ts_order_key_eq (sp : Spec) (k k' : Nat) (r r' : Option Nat) (g : Bool)
     cases r <;> cases r' <;>
       simp only [Infix.key, keyLt_iff, Option.some.injEq, reduceCtorEq, and_true, and_false] <;> omega
   rcases htri with h | ⟨rfl, rfl⟩ | h
-  · rw [ts_order_key sp k k' r r' g g hk' hr' hs h, h]
+  · rw [ts_order_key sp k k' r r' g g hf hk' hr' hs h, h]
   · rw [ltText_irrefl]
     cases r <;> simp [keyLt, Infix.key]
-  · rw [ltText_asymm (ts_order_key sp k' k r' r g g hk hr hs h)]
+  · rw [ltText_asymm (ts_order_key sp k' k r' r g g hf hk hr hs h)]
     cases hlt : keyLt (Infix.ts k r).key (Infix.ts k' r').key with
     | false => rfl
     | true =>
@@ -509,7 +528,7 @@ example : RestartSafe ⟨"app".toList, none, some "log".toList, "rCURRENT".toLis
   exact ⟨'l', "og".toList, rfl, by decide⟩
 
 example : ltText (renderStamp 0 20231231235959) (renderStamp 0 20240101000000) = true :=
-  stamps_order 0 _ _ (by decide) (by decide)
+  stamps_order 0 _ _ (by decide) (by decide) (by decide)
 
 example : ltText "äö_r2024-01-31_10-00-00.log".toList "äö_r2024-01-31_10-00-00.restart-0000.log.gz".toList
     = true := by decide
